@@ -35,6 +35,14 @@ func (m AcceptAllValidFeedbackMapper) HandleProposedHeader(
 		HandleProposedHeaderBadPrevCommitVoteCount:
 		return gexchange.FeedbackRejected
 
+	case HandleProposedHeaderRoundTooFarInFuture:
+		// Possibly valid, but we cannot tell yet.
+		return gexchange.FeedbackIgnored
+
+	case HandleProposedHeaderMissingProposerPubKey,
+		HandleProposedHeaderBadPrevCommitProofDoubleSigned:
+		return gexchange.FeedbackRejected
+
 	default:
 		panic(fmt.Errorf("BUG: no HandleProposedHeaderResult mapping set for %s", f))
 	}
@@ -70,6 +78,17 @@ func (m AcceptAllValidFeedbackMapper) mapVoteResult(
 		HandleVoteProofsBadPubKeyHash:
 		return gexchange.FeedbackRejected
 
+	case HandleVoteProofsFutureVerified:
+		// The signatures were verified and saved, even though the round is not in view yet.
+		return gexchange.FeedbackAccepted
+
+	case HandleVoteProofsFutureUnverified:
+		// We could not check the signatures, so do not vouch for the message.
+		return gexchange.FeedbackIgnored
+
+	case HandleVoteProofsBadSignature:
+		return gexchange.FeedbackRejected
+
 	default:
 		panic(fmt.Errorf("BUG: no %s mapping set for %s", name, f))
 	}
@@ -101,6 +120,14 @@ func (m DropDuplicateFeedbackMapper) HandleProposedHeader(
 		HandleProposedHeaderBadPrevCommitProofPubKeyHash,
 		HandleProposedHeaderBadPrevCommitProofSignature,
 		HandleProposedHeaderBadPrevCommitVoteCount:
+		return gexchange.FeedbackRejected
+
+	case HandleProposedHeaderRoundTooFarInFuture:
+		// Possibly valid, but we cannot tell yet.
+		return gexchange.FeedbackIgnored
+
+	case HandleProposedHeaderMissingProposerPubKey,
+		HandleProposedHeaderBadPrevCommitProofDoubleSigned:
 		return gexchange.FeedbackRejected
 
 	default:
@@ -136,6 +163,17 @@ func (m DropDuplicateFeedbackMapper) mapVoteResult(
 
 	case HandleVoteProofsEmpty,
 		HandleVoteProofsBadPubKeyHash:
+		return gexchange.FeedbackRejected
+
+	case HandleVoteProofsFutureVerified:
+		// The signatures were verified and saved, even though the round is not in view yet.
+		return gexchange.FeedbackAccepted
+
+	case HandleVoteProofsFutureUnverified:
+		// We could not check the signatures, so do not vouch for the message.
+		return gexchange.FeedbackIgnored
+
+	case HandleVoteProofsBadSignature:
 		return gexchange.FeedbackRejected
 
 	default:
